@@ -1489,12 +1489,13 @@ func usedNamesCase(r *vh.Run, content string) {
 func grammarCase(r *vh.Run) {
 	var content strings.Builder
 	want := map[string]bool{}
-	plain := []byte("abc /<[%(>]~0123 \n")
+	plain := []byte("abc /<[%>]~0123 \n")
 	for i, n := 0, 1+r.Rand.Intn(5); i < n; i++ {
 		if r.Rand.Intn(3) != 0 {
 			content.WriteString(" (")
-			for k, m := 0, r.Rand.Intn(7); k < m; k++ {
-				switch r.Rand.Intn(4) {
+			depth := 0
+			for k, m := 0, r.Rand.Intn(9); k < m; k++ {
+				switch r.Rand.Intn(6) {
 				case 0:
 					content.WriteByte('\\')
 					content.WriteByte([]byte("\\\\)(n1\n")[r.Rand.Intn(7)])
@@ -1502,9 +1503,20 @@ func grammarCase(r *vh.Run) {
 					for q, e := 0, r.Rand.Intn(3); q < e; q++ { // runs of escaped backslashes
 						content.WriteString("\\\\")
 					}
+				case 2: // nested balanced parentheses, to any depth
+					content.WriteByte('(')
+					depth++
+				case 3:
+					if depth > 0 {
+						content.WriteByte(')')
+						depth--
+					}
 				default:
 					content.WriteByte(plain[r.Rand.Intn(len(plain))])
 				}
+			}
+			for ; depth > 0; depth-- {
+				content.WriteByte(')')
 			}
 			content.WriteString(") Tj")
 		}
@@ -2198,6 +2210,9 @@ func docOracle(r *vh.Run, doc []byte, dupContent bool, kind string) {
 			if class == "optimize-page-loses-used-resource" && nestedParens(contentOf(fpB[i])) {
 				class = "content-scanner-nested-parentheses-lose-used-resource"
 			}
+			if class == "optimize-page-loses-used-resource" && laterParen(contentOf(fpB[i])) {
+				class = "content-scanner-string-runs-on-to-later-parenthesis"
+			}
 			if contentOf(fpA[i]) != contentOf(fpB[i]) {
 				class = "optimize-page-content"
 				if kind == "rawtwin" {
@@ -2291,6 +2306,16 @@ func nestedParens(contentField string) bool {
 		}
 	}
 	return false
+}
+
+// laterParen: the page content has a ')' outside any string (in a comment or in inline image
+// data) after a string
+func laterParen(contentField string) bool {
+	b, err := hex.DecodeString(strings.TrimPrefix(contentField, "content="))
+	if err != nil {
+		return false
+	}
+	return bytes.Contains(b, []byte("% /F9 ) (")) || bytes.Contains(b, []byte(")/EI("))
 }
 
 func contentOf(fp string) string {
